@@ -1063,6 +1063,61 @@ func c17events(out *rec.Out, rng *rec.Rng, stats map[string]int, cfg c17cfg) {
 	c17dump(out, in)
 	s.finish(out, stats, complete)
 	in.Stop(2 * time.Second)
+	if cfg.kind == "ebg" {
+		c17ebgShots(out, g.XML(), k, mk, stats, cfg)
+	}
+}
+
+// c17ebgShots: fresh instances of the event-based-gateway program; in each, all k competing events are delivered from k
+// goroutines, the flows are parked at the entry of the determination and released at one instant. Whatever the
+// schedule, exactly one alternative may win: one determination, one task requested, no panic.
+func c17ebgShots(out *rec.Out, xml string, k int, mk func(int) event.IEvent, stats map[string]int, cfg c17cfg) {
+	const point = "ebg.transformer.enter"
+	for shot := 0; shot < 12; shot++ {
+		in, _, err := eng.Start(xml, map[string]any{"v0": 0})
+		if err != nil {
+			out.Line("harness-error %v", err)
+			return
+		}
+		in.Quiesce(4 * time.Second)
+		base := cfg.ctl.Hits(point)
+		cfg.ctl.Hold(point)
+		var wg sync.WaitGroup
+		for e := 0; e < k; e++ {
+			wg.Add(1)
+			go func(e int) {
+				defer wg.Done()
+				in.Proc.ConsumeEvent(mk(e))
+			}(e)
+		}
+		for i := 0; i < 300 && cfg.ctl.Hits(point)-base < k; i++ {
+			time.Sleep(2 * time.Millisecond)
+		}
+		held := cfg.ctl.Hits(point) - base
+		cfg.ctl.Release(point)
+		c17waitWG(&wg, 4*time.Second)
+		in.Quiesce(4 * time.Second)
+		determ, reqs := 0, 0
+		for _, l := range in.Lines() {
+			w := strings.Fields(l)
+			if len(w) >= 2 && w[0] == "obs" && w[1] == "determ" {
+				determ++
+			}
+			if len(w) >= 2 && w[0] == "obs" && w[1] == "task" {
+				reqs++
+			}
+		}
+		out.Line("c17 ebgshot held=%d determ=%d requests=%d", held, determ, reqs)
+		stats["ebg_shots"]++
+		if held >= 2 {
+			stats["ebg_shots_raced"]++
+		}
+		for _, q := range in.Pending() {
+			in.AnswerOK(q, nil)
+		}
+		in.Quiesce(2 * time.Second)
+		in.Stop(2 * time.Second)
+	}
 }
 
 // ---------------------------------------------------------------- loc: two instances on one shared locator
